@@ -175,10 +175,17 @@ def evalChain (kv : List (String × String)) : Option String := do
   if (specAccept full n) != (goVerify full n == .ok) then pure "spec-mismatch" else
   -- `san=ext`: the template carries the names in a subjectAltName extension (`seenNames`)
   let carrier := if lookup kv "san" = some "ext" then SanCarrier.extension else SanCarrier.fields
-  let coded := match chainForSig ints roots with
+  -- `ord=icfirst`: WithX509IntermediateCerts before WithX509Signer (`intsIcFirst`)
+  let icFirst := lookup kv "ord" = some "icfirst"
+  let engInts := if icFirst then intsIcFirst ints else ints
+  let codedOn := fun (is : List Cert) => match chainForSig is roots with
     | none => Verdict.allow
     | some ch => engineUnderTest (ch.map (·.nc)) (seenNames carrier n)
-  let why := fun (l : List Level) => if carrier = .extension then "extsan" else why l
+  let coded := codedOn engInts
+  let why := fun (l : List Level) =>
+    if carrier = .extension then "extsan"
+    else if icFirst && codedOn ints ≠ .allow then "icfirst"
+    else why l
   match v with
   | .nc =>
     -- the property: a name outside the constraints must not be signed (403, or the 500 of an
